@@ -5,7 +5,7 @@ from __future__ import annotations
 
 import ast
 
-from tiv.astutil import body_walk, call_name, conds, dotted, enclosing_stmt, guards, norm, short, stores_in, walk_local
+from tiv.astutil import names_loaded, body_walk, call_name, conds, dotted, enclosing_stmt, guards, norm, short, stores_in, walk_local
 from tiv.mutate import M
 
 RULES = {
@@ -260,7 +260,8 @@ def run(ck, m):
       for v in _branches(v0):
         n7 += 1
         ok7 = isinstance(v, ast.Call) and norm(v.func) == "RenderArgs" and len(v.args) >= 2 and norm(v.args[0]) == "self.render_cls" and norm(v.args[1]) == "self" \
-            and not any(isinstance(x, (ast.ListComp, ast.GeneratorExp, ast.SetComp)) or (isinstance(x, ast.Call) and norm(x.func) == "filter") for a_ in v.args[2:] for x in ast.walk(a_))
+            and not any(isinstance(x, (ast.ListComp, ast.GeneratorExp, ast.SetComp)) or (isinstance(x, ast.Call) and norm(x.func) in ("filter", "set", "frozenset", "sorted", "reversed", "dict.fromkeys")) \
+                        or (isinstance(x, ast.Subscript) and isinstance(x.slice, ast.Slice) and "namespaces" in names_loaded(x.value)) for a_ in v.args[2:] for x in ast.walk(a_))
         ck.ob("R7", r, ok7, f"RenderArgs.update must return RenderArgs(self.render_cls, self, <every given namespace, in order>); found `{short(v, 80)}` - a filtered or short-cut result loses "
                 "last-given precedence (an earlier duplicate wins once the later, 'unchanged' one is dropped)", stmt="RenderArgs.update: constructor with self and all namespaces")
     conv = m.get(TY, "RenderArgs.convert")
@@ -370,5 +371,8 @@ MUTANTS = [
     M("hash-on-type", TY, "ArgsNamespace.__hash__", "                type(self)._RENDER_CLS,\n                tuple(", "                type(self),\n                tuple(", {"R5"}),
     M("raise-after-create", TY, "ArgsDataNamespaceMeta.__new__", "            if len(bases) > 1:\n                raise RenderArgsDataError(\"Multiple base classes\")\n", "", {"R6"}),
     M("no-reassoc-test", TY, "ArgsNamespaceMeta.__new__", "                if render_cls.Args:\n", "                if False:\n", {"R6"}),
+    M("update-drops-rest", TY, "RenderArgs.update#3", "if render_cls else namespaces),", "if render_cls else namespaces[:1]),", {"R7"}),
+    M("convert-child-empty", TY, "RenderArgs.convert", "            return RenderArgs(render_cls, self)\n", "            return RenderArgs(render_cls)\n", {"R7"}),
+    M("to-render-args-no-self", TY, "ArgsNamespace.to_render_args", "return RenderArgs(render_cls or type(self)._RENDER_CLS, self)", "return RenderArgs(render_cls or type(self)._RENDER_CLS)", {"R7"}),
     M("twin-rename", TY, "RenderArgs.__init__", "namespaces_dict", "ns_dict", twin=True, count=0),
 ]
